@@ -109,24 +109,7 @@ impl End {
     }
 }
 
-/// What one endpoint has put on / learned from the wire: C05 sender monitor.
-#[derive(Default)]
-pub struct SenderMon {
-    pub iss: Option<u32>,
-    pub own_syn_ws: Option<u8>,
-    pub own_syn_seen: bool,
-    pub peer_syn_mss: Option<Option<u16>>, // Some(None) = SYN seen without MSS option
-    pub peer_syn_ws: Option<u8>,
-    pub peer_syn_seen: bool,
-    pub peer_syn_win: Option<u16>,
-    pub max_edge: Option<u32>,
-    pub highest_sent: Option<u32>,
-    pub fin_seq: Option<u32>,
-    pub segs: u64,
-    pub data_segs: u64,
-    pub retrans_segs: u64,
-    pub probes: u64,
-}
+pub use crate::sendmon::SenderMon;
 
 pub struct Tcp2 {
     pub cfg: Tcp2Cfg,
@@ -419,246 +402,26 @@ impl Tcp2 {
         )
     }
 
-    // ---------------- C05 sender monitor ----------------
+    // ---------------- C05 sender monitor (see sendmon.rs) ----------------
 
     fn on_deliver_learn(&mut self, to: usize, f: &[u8]) {
-        // what endpoint `to` learns from a segment the peer really sent
-        let Ok(ip) = wc::parse_ip(f) else { return };
-        if ip.proto != 6 {
-            return;
-        }
-        let Ok(t) = wc::parse_tcp(&ip, f) else { return };
-        let m = &mut self.mon[to];
-        if t.has(wc::TCP_RST) {
-            return;
-        }
-        if t.has(wc::TCP_SYN) {
-            m.peer_syn_seen = true;
-            m.peer_syn_mss = Some(t.mss);
-            m.peer_syn_ws = t.wscale;
-            if !t.has(wc::TCP_ACK) {
-                m.peer_syn_win = Some(t.win);
-            }
-        }
-        if t.has(wc::TCP_ACK) {
-            let shift = if t.has(wc::TCP_SYN) {
-                0
-            } else {
-                match (m.own_syn_ws, m.peer_syn_ws) {
-                    (Some(_), Some(s)) => s.min(14) as u32,
-                    _ => 0,
-                }
-            };
-            let edge = t.ack.wrapping_add((t.win as u32) << shift);
-            m.max_edge = Some(match m.max_edge {
-                Some(e) if wc::seq_lt(edge, e) => e,
-                _ => edge,
-            });
-        }
+        self.mon[to].learn(f);
     }
 
     fn on_emit(&mut self, side: usize, f: &[u8], only_frame_of_poll: bool, recv_queue_after: usize) {
-        let who = ["A", "B"][side];
-        let ip = match wc::parse_ip(f) {
-            Ok(ip) => ip,
-            Err(e) => {
-                self.pending.push(Viol::new("C10/malformed-ip/tcp2", format!("{} emitted: {}", who, e)));
-                return;
-            }
+        let ctx = crate::sendmon::EmitCtx {
+            who: ["A", "B"][side],
+            mtu: self.cfg.mtu,
+            written: self.ends[side].written,
+            closed: self.ends[side].closed,
+            data: &self.ends[side].data,
+            rx_cap: self.ends[side].rx_cap,
+            recv_queue_after,
+            only_frame_of_poll,
+            keep_alive: self.cfg.keep_alive_ms.is_some(),
+            expect_isn: self.cfg.isn.map(|i| i[side]),
         };
-        if ip.total_len > self.cfg.mtu {
-            self.pending.push(Viol::new("C05/exceeds-mtu", format!("{} emitted IP packet of {} bytes, MTU {}", who, ip.total_len, self.cfg.mtu)));
-        }
-        if ip.proto != 6 {
-            return;
-        }
-        let t = match wc::parse_tcp(&ip, f) {
-            Ok(t) => t,
-            Err(e) => {
-                self.pending.push(Viol::new("C10/malformed-tcp/tcp2", format!("{} emitted: {}", who, e)));
-                return;
-            }
-        };
-        if !t.checksum_ok {
-            self.pending.push(Viol::new("C08/emitted-bad-checksum/tcp", format!("{} emitted {}", who, wc::describe_ip_frame(f))));
-        }
-        let cfg = self.cfg.clone();
-        let (written, closed, datalen) = {
-            let e = &self.ends[side];
-            (e.written, e.closed, e.data.len())
-        };
-        let data = self.ends[side].data.clone();
-        let rx_cap = self.ends[side].rx_cap;
-        let m = &mut self.mon[side];
-        m.segs += 1;
-        let mut v: Vec<Viol> = vec![];
-        if t.has(wc::TCP_RST) {
-            // resets carry no data and no window promise
-            if !t.payload.is_empty() {
-                v.push(Viol::new("C05/rst-with-payload", format!("{} emitted RST with {} bytes", who, t.payload.len())));
-            }
-            self.pending.extend(v);
-            return;
-        }
-        if t.has(wc::TCP_SYN) {
-            match m.iss {
-                None => m.iss = Some(t.seq),
-                Some(i) if i != t.seq => {
-                    // a new connection attempt would change ISS; tcp2 never reconnects
-                    v.push(Viol::new("C05/syn-seq-changed", format!("{} retransmitted SYN with seq {} (first was {})", who, t.seq, i)));
-                }
-                _ => {}
-            }
-            m.own_syn_seen = true;
-            m.own_syn_ws = t.wscale;
-            if let Some(isn) = cfg.isn {
-                if t.seq != isn[side] {
-                    v.push(Viol::new("MACHINERY/isn-not-as-requested", format!("{} SYN seq {} wanted {}", who, t.seq, isn[side])));
-                }
-            }
-            // (f) SYN windows are unscaled: the field itself is the window, min(free, 65535)
-            let free = rx_cap - recv_queue_after;
-            let expect = free.min(65535) as u16;
-            if only_frame_of_poll && t.win != expect {
-                v.push(Viol::new(
-                    "C05/syn-window-not-unscaled",
-                    format!("{} SYN window field {} but free receive space is {} (expected {})", who, t.win, free, expect),
-                ));
-            }
-            if !t.payload.is_empty() {
-                v.push(Viol::new("C05/syn-with-payload", format!("{} SYN carries {} bytes", who, t.payload.len())));
-            }
-            m.highest_sent = Some(t.seq.wrapping_add(1));
-            self.pending.extend(v);
-            return;
-        }
-        let Some(iss) = m.iss else {
-            v.push(Viol::new("C05/segment-before-syn", format!("{} emitted {} before any SYN", who, wc::describe_ip_frame(f))));
-            self.pending.extend(v);
-            return;
-        };
-        // (f) later windows are scaled as negotiated
-        let shift = match (m.own_syn_ws, m.peer_syn_ws) {
-            (Some(s), Some(_)) => s.min(14) as u32,
-            _ => 0,
-        };
-        if ((t.win as usize) << shift) > rx_cap {
-            v.push(Viol::new(
-                "C05/window-exceeds-buffer",
-                format!("{} advertises window {}<<{} = {} > receive buffer {}", who, t.win, shift, (t.win as usize) << shift, rx_cap),
-            ));
-        }
-        if only_frame_of_poll && m.peer_syn_seen {
-            let free = rx_cap - recv_queue_after;
-            let expect = (free >> shift).min(65535) as u16;
-            if t.win != expect {
-                v.push(Viol::new(
-                    "C05/window-not-scaled-as-negotiated",
-                    format!("{} window field {} but free space {} >> shift {} = {}", who, t.win, free, shift, expect),
-                ));
-            }
-        }
-        let plen = t.payload.len() as u32;
-        let rel = t.seq.wrapping_sub(iss.wrapping_add(1)); // offset of first payload byte in the stream
-        let is_keepalive = cfg.keep_alive_ms.is_some()
-            && t.payload.len() == 1
-            && t.payload[0] == 0
-            && m.highest_sent.map_or(false, |h| t.seq.wrapping_add(1) == h || wc::seq_lt(t.seq, h));
-        if plen > 0 && !is_keepalive {
-            m.data_segs += 1;
-            // (a) payload equals the application's bytes for those sequence numbers
-            let r = rel as usize;
-            if (rel as i32) < 0 || r + t.payload.len() > written {
-                v.push(Viol::new(
-                    "C05/payload-outside-written-stream",
-                    format!("{} sent stream offsets {}..{} but the application wrote only {} bytes", who, rel as i32, rel as i64 + plen as i64, written),
-                ));
-            } else if data[r..r + t.payload.len()] != t.payload[..] {
-                v.push(Viol::new(
-                    "C05/payload-altered",
-                    format!("{} sent bytes at stream offset {} that differ from what the application wrote", who, r),
-                ));
-            }
-            // (b) MSS
-            let peer_mss = match m.peer_syn_mss {
-                Some(Some(0)) | Some(None) | None => 536usize,
-                Some(Some(x)) => (x as usize).max(48),
-            };
-            if t.payload.len() > peer_mss {
-                v.push(Viol::new(
-                    "C05/exceeds-peer-mss",
-                    format!("{} sent {} payload bytes, peer announced MSS {:?} (effective {})", who, t.payload.len(), m.peer_syn_mss, peer_mss),
-                ));
-            }
-            // (c) window
-            let mut edges: Vec<u32> = vec![];
-            if let Some(e) = m.max_edge {
-                edges.push(e);
-            }
-            if let Some(w) = m.peer_syn_win {
-                edges.push(iss.wrapping_add(1).wrapping_add(w as u32));
-            }
-            let end = t.seq.wrapping_add(plen);
-            if edges.is_empty() {
-                v.push(Viol::new("C05/data-before-any-window", format!("{} sent data before learning any window", who)));
-            } else {
-                let edge = edges.iter().copied().fold(edges[0], |a, b| if wc::seq_lt(a, b) { b } else { a });
-                let is_probe = plen == 1 && t.seq == edge;
-                if is_probe {
-                    m.probes += 1;
-                } else if wc::seq_lt(edge, end) {
-                    let retx = m.highest_sent.map_or(false, |h| wc::seq_lt(t.seq, h));
-                    v.push(Viol::new(
-                        format!("C05/beyond-window/{}", if retx { "retransmission" } else { "new-data" }),
-                        format!(
-                            "{} sent seq {}..{} (stream {}..{}) but the highest right edge it was ever given is {} (stream {}): {} bytes beyond the window",
-                            who,
-                            t.seq,
-                            end,
-                            rel,
-                            rel.wrapping_add(plen),
-                            edge,
-                            edge.wrapping_sub(iss.wrapping_add(1)),
-                            wc::seq_diff(end, edge)
-                        ),
-                    ));
-                }
-            }
-            // (d) contiguity of new data
-            if let Some(h) = m.highest_sent {
-                if wc::seq_lt(h, t.seq) {
-                    v.push(Viol::new("C05/gap-in-new-data", format!("{} sent seq {} but highest sequence sent so far is {}", who, t.seq, h)));
-                }
-                if wc::seq_lt(t.seq, h) {
-                    m.retrans_segs += 1;
-                }
-            }
-        }
-        // (e) FIN
-        let seg_end = t.seq.wrapping_add(plen);
-        if t.has(wc::TCP_FIN) {
-            let expect = iss.wrapping_add(1).wrapping_add(datalen as u32);
-            if !closed || written != datalen {
-                v.push(Viol::new("C05/fin-before-close", format!("{} sent FIN although the application has not closed (written {}/{})", who, written, datalen)));
-            } else if seg_end != expect {
-                v.push(Viol::new(
-                    "C05/fin-not-after-all-data",
-                    format!("{} sent FIN at stream offset {} but {} bytes were written", who, seg_end.wrapping_sub(iss.wrapping_add(1)), datalen),
-                ));
-            }
-            m.fin_seq = Some(seg_end);
-        } else if let Some(fs) = m.fin_seq {
-            if plen > 0 && !is_keepalive && wc::seq_lt(fs, seg_end) {
-                v.push(Viol::new("C05/data-after-fin", format!("{} sent seq up to {} after FIN at {}", who, seg_end, fs)));
-            }
-        }
-        if !is_keepalive {
-            let new_high = seg_end.wrapping_add(t.has(wc::TCP_FIN) as u32);
-            m.highest_sent = Some(match m.highest_sent {
-                Some(h) if wc::seq_lt(new_high, h) => h,
-                _ => new_high,
-            });
-        }
+        let v = self.mon[side].check_emit(f, &ctx);
         self.pending.extend(v);
     }
 
@@ -943,7 +706,7 @@ pub fn configs(tier: Tier) -> Vec<(Tcp2Cfg, u32)> {
     let tiny = Tcp2Cfg { rx: [8, 8], tx: [16, 16], len: [20, 9], mtu: 80, ..b("rx8-bidir") };
     match tier {
         Tier::Quick => {
-            v.push((small, 4));
+            v.push((small, 3));
             v.push((dflt, 3));
             v.push((wrap, 3));
             v.push((big, 2));
@@ -983,7 +746,7 @@ fn cfg_by_name(name: &str) -> Option<Tcp2Cfg> {
 /// Runs the shared tcp2 exploration and returns everything found; `keep` filters signatures
 /// by property prefix.
 pub fn explore_all(rep: &mut Report, tier: Tier, keep: &[&str]) {
-    let lim = Limits { max_states: 200_000_000, max_wall_s: if tier == Tier::Quick { 45.0 } else { 1500.0 } };
+    let lim = Limits { max_states: 200_000_000, max_wall_s: if tier == Tier::Quick { 200.0 } else { 3000.0 } };
     let mut all: Vec<Found> = vec![];
     for (cfg, k) in configs(tier) {
         let mut samples = vec![];
